@@ -266,6 +266,13 @@ def find_proposed_ilis(
     yield from connect().execute(query, params)
 
 
+def _and_form_lexicons(lexicon_rowids: Sequence[int]) -> str:
+    # forms given to an entry by unselected lexicons (extensions) don't count
+    if lexicon_rowids:
+        return f'AND lexicon_rowid IN ({_qs(lexicon_rowids)})'
+    return ''
+
+
 def find_entries(
     id: Optional[str] = None,
     forms: Sequence[str] = (),
@@ -285,18 +292,23 @@ def find_entries(
         cte = f'WITH wordforms(s) AS (VALUES {_vs(forms)})'
         or_norm = 'OR normalized_form IN wordforms' if normalized else ''
         and_rank = '' if search_all_forms else 'AND rank = 0'
+        and_lex = _and_form_lexicons(lexicon_rowids)
         conditions.append(f'''
             e.rowid IN
                (SELECT entry_rowid
                   FROM forms
-                 WHERE (form IN wordforms {or_norm}) {and_rank})
+                 WHERE (form IN wordforms {or_norm}) {and_rank} {and_lex})
         '''.strip())
         params.extend(forms)
+        params.extend(lexicon_rowids)
     if pos:
         conditions.append('e.pos = ?')
         params.append(pos)
     if lexicon_rowids:
         conditions.append(f'e.lexicon_rowid IN ({_qs(lexicon_rowids)})')
+        params.extend(lexicon_rowids)
+        # forms given to the entry by unselected lexicons (extensions) don't count
+        conditions.append(f'f.lexicon_rowid IN ({_qs(lexicon_rowids)})')
         params.extend(lexicon_rowids)
 
     condition = ''
@@ -342,13 +354,15 @@ def find_senses(
         cte = f'WITH wordforms(s) AS (VALUES {_vs(forms)})'
         or_norm = 'OR normalized_form IN wordforms' if normalized else ''
         and_rank = '' if search_all_forms else 'AND rank = 0'
+        and_lex = _and_form_lexicons(lexicon_rowids)
         conditions.append(f'''
             s.entry_rowid IN
                (SELECT entry_rowid
                   FROM forms
-                 WHERE (form IN wordforms {or_norm}) {and_rank})
+                 WHERE (form IN wordforms {or_norm}) {and_rank} {and_lex})
         '''.strip())
         params.extend(forms)
+        params.extend(lexicon_rowids)
     if pos:
         conditions.append('e.pos = ?')
         params.append(pos)
@@ -397,8 +411,10 @@ def find_synsets(
         and_rank = '' if search_all_forms else 'AND rank = 0'
         and_lex = ''
         if lexicon_rowids:
-            # senses of unselected lexicons (e.g., extensions) don't count
-            and_lex = f'AND _s.lexicon_rowid IN ({_qs(lexicon_rowids)})'
+            # senses and forms given to an entry by unselected lexicons
+            # (e.g., extensions) don't count
+            and_lex = (f'AND f.lexicon_rowid IN ({_qs(lexicon_rowids)}) '
+                       f'AND _s.lexicon_rowid IN ({_qs(lexicon_rowids)})')
         join = f'''\
           JOIN (SELECT _s.entry_rowid, _s.synset_rowid, _s.entry_rank
                   FROM forms AS f
@@ -408,6 +424,7 @@ def find_synsets(
         '''.strip()
         params.extend(forms)
         if lexicon_rowids:
+            params.extend(lexicon_rowids)
             params.extend(lexicon_rowids)
         order = 'ORDER BY s.entry_rowid, s.entry_rank'
     if pos:
